@@ -7,7 +7,7 @@ def setup(register, COMMON_TB):
         rule="one string leaf of a rich valid state (Gateway, HTTPRoute/GRPCRoute matches and filters, NginxProxy, ClientSettings/Observability/"
              "UpstreamSettings policies, BackendTLSPolicy: 56 leaves) is set to its valid value followed or interrupted by one of 19 hostile payloads "
              "(every payload carries the marker zqx); the real pipeline is run on the benign and on the hostile state and both outputs are parsed "
-             "inside Coq; quick samples 5 payloads per leaf, thorough runs the full cross product; every case is non-trivial; distinct = (leaf, value)",
+             "inside Coq; quick samples 3 payloads per leaf (chosen by the seed), thorough runs the full cross product; every case is non-trivial; distinct = (leaf, value)",
         trusted_base=COMMON_TB + [
             "ngx/Lexer.v: NGINX tokenizer written from the NGINX source/documentation; which directive arguments NGINX interpolates (ngx/Wf.v interpolated_args)",
             "the list of string leaves is hand-enumerated (the fake API server admits any value, i.e. schema validation is bypassed)",
